@@ -769,7 +769,9 @@ func constructionsGuarded(c *Ctx, kind string) bool {
 
 var _ = token.NoPos
 
-func checkIndexPartDesc(c *Ctx) {
+func checkIndexPartDesc(c *Ctx) { checkIndexPartDescRule(c, "R01e") }
+
+func checkIndexPartDescRule(c *Ctx, rule string) {
 	for _, pp := range []string{pSqlite, pMysql, pPostgres} {
 		c.allBodies(func(b bodyInfo) {
 			if b.fi.Pkg.PkgPath != pp {
@@ -828,7 +830,7 @@ func checkIndexPartDesc(c *Ctx) {
 				return // this body does not deal with ordering at all (e.g. a prefix-only writer)
 			}
 			n, found := f.reach([]point{f.entry()}, consult, isReturn, true)
-			c.Check("R01e", b.name+"|Desc consulted on every path", nodePos(n, b.body.Pos()), !found, "the key-part writer can finish at %s without consulting IndexPart.Desc: a descending expression (or column) part is created ascending and every later plan differs", c.nodeAtOrEnd(n))
+			c.Check(rule, b.name+"|Desc consulted on every path", nodePos(n, b.body.Pos()), !found, "the key-part writer can finish at %s without consulting IndexPart.Desc: a descending expression (or column) part is created ascending and every later plan differs", c.nodeAtOrEnd(n))
 		})
 	}
 }
